@@ -241,6 +241,23 @@ def oracle(ctx, interp, Ad, A, theta, norm, spl, sym, rowsum0, base):
                     if name == 'classical/modified' and mF and abs(sum(row.values()) - 1) > 1e-8:
                         ctx.fail(name + '/row-sum-not-one', 'row %d sums to %r' % (i, sum(row.values())), case)
                         break
+    # the legacy SciPy matrix classes (csr_matrix): '*' means a matrix product there, the routines must not care
+    Am, Cm = sp.csr_matrix(A), sp.csr_matrix(C)
+    for name, fa, fm in (('direct', lambda: interp.direct_interpolation(A, C, spl), lambda: interp.direct_interpolation(Am, Cm, spl)),
+                         ('classical', lambda: interp.classical_interpolation(A, C, spl), lambda: interp.classical_interpolation(Am, Cm, spl)),
+                         ('one_point', lambda: interp.one_point_interpolation(A, C, spl), lambda: interp.one_point_interpolation(Am, Cm, spl))):
+        case = dict(base, routine=name, input_class='csr_matrix')
+        try:
+            with warnings.catch_warnings(), np.errstate(all='ignore'):
+                warnings.simplefilter('ignore')
+                Pa_, Pm_ = sp.csr_array(fa()).toarray(), sp.csr_array(fm()).toarray()
+        except Exception as e:   # noqa
+            ctx.fail(name + '/csr_matrix/raises', repr(e), case)
+            continue
+        ctx.count('oracle:legacy-matrix-class')
+        both = np.isfinite(Pa_) & np.isfinite(Pm_)
+        if Pa_.shape != Pm_.shape or not np.array_equal(np.isfinite(Pa_), np.isfinite(Pm_)) or _nn(np.abs(Pa_[both] - Pm_[both]).max(initial=0)) > 1e-12:
+            ctx.fail(name + '/csr_matrix-differs', 'csr_matrix inputs give another prolongator than the same data as csr_array', case)
     # an explicit threshold (all strength matrices and thresholds): the routine then derives the strength matrix
     # itself and must ignore the one passed in -- also for theta = 0, where every connection is strong
     from pyamg.strength import classical_strength_of_connection
